@@ -17,7 +17,8 @@ RULE = ('layouts: every composition of n <= N into parts of length >= 1 (flat fi
 ASSUMPTIONS = ['np.memmap / np.load / mtscomp decoding are transport (byte layout not modelled)',
                'oracle for reader[item, cols] is A[item][:, cols] (outer indexing)']
 
-VAL = {'uint8': (1, 0), 'int16': (1, -30000), 'int32': (3, -100000), 'float32': (.5, -100.), 'float64': (.25, -1000.)}
+VAL = {'uint8': (1, 0), 'int16': (1, -30000), 'int32': (3, -100000), 'float32': (.5, -100.), 'float64': (.25, -1000.),
+       '>i2': (1, -30000), '>f4': (.5, -100.), '>u4': (3, 100000)}     # non-native byte order (flat files only)
 
 
 def _array(n, nch, dtype):
@@ -44,6 +45,9 @@ def _pyitem(it, kind):
     if 'list' in it:
         return np.array(it['list'], dtype=_npdtype(kind, it['list'])) if kind.startswith('np') else list(it['list'])
     s, e = it['slice']
+    if kind.startswith('np'):
+        # slice bounds of NumPy integer type (e.g. a uint64 spike sample +- a margin)
+        s, e = [None if v is None else _npdtype(kind, [v]).type(v) for v in (s, e)]
     return slice(s, e)
 
 
@@ -187,7 +191,8 @@ def judge(case, impl_res, ans):
             return 'SPEC: item %d: real code raised %s (%s) on an in-domain index' % (k, r['raised'], r['msg'])
         if r['ids'] != e:
             return 'SPEC: item %d: rows/columns differ from NumPy indexing of the concatenation' % k
-        if r['dtype'] != case['dtype'] or r['ndim'] != 2:
+        # rows come back in native byte order (as NumPy's concatenate does), with the stored kind and size
+        if np.dtype(r['dtype']) != np.dtype(case['dtype']).newbyteorder('=') or r['ndim'] != 2:
             return 'SPEC: item %d: dtype/ndim %s/%s' % (k, r['dtype'], r['ndim'])
         if r.get('args_changed'):
             return 'SPEC: item %d: indexing modified the index objects passed by the caller (NumPy indexing does not)' % k
@@ -309,7 +314,7 @@ def col_selectors(nch, rng):
 def gen(tier, rng):
     q = tier == 'quick'
     N = 5 if q else 7
-    dts = list(VAL)
+    dts = [d for d in VAL if not d.startswith('>')]
     k = 0
     for n in range(1, N + 1):
         items = all_items(n, n <= 6)
@@ -353,7 +358,7 @@ def gen(tier, rng):
         parts = [rng.randrange(1, 60) for _ in range(nparts)]
         n = sum(parts)
         nch = rng.randrange(1, 5)
-        dtype = rng.pick(['int16', 'int32', 'float32', 'float64'])
+        dtype = rng.pick(['int16', 'int32', 'float32', 'float64', '>i2', '>f4', '>u4'])
         sels = col_selectors(nch, rng)
         b = [0]
         for l in parts:
